@@ -248,6 +248,7 @@ class ModelSlot:
         self.abort_seen = "no"
         self.last_state = None    # (digest, json text) after the last event that touched this object
         self.fit_doc = None       # document right after fit (gen 0)
+        self.limbo = False        # an object whose last fit() was interrupted or failed: only good for another fit()
         self.gate0 = None         # gate attributes (dq names, tz) when the object entered service: the
                                   # reference machine's own memory, never re-read from the live object
 
@@ -727,6 +728,9 @@ class Worker:
                 model = old.obj
                 facts["reused"] = True
                 self.probe("refit_same_object")
+                if old.limbo:
+                    facts["after_failed_fit"] = True
+                    self.probe("refit_after_failed_fit")
             else:
                 with self._quiet():
                     model = P.make_model(self.em, fam, profile)
@@ -746,7 +750,9 @@ class Worker:
         sig["fam"], sig["profile"] = fam, profile
         out["presig"], out["nontrivial"] = sig, nt or ds.n_uses > 1
         if ab and fam != "caltrack":
-            return self._fit_aborted(a, ds, model, kw, ab, before, out)
+            res = self._fit_aborted(a, ds, model, kw, ab, before, out)
+            self._limbo(a["m"], model, fam, profile)
+            return res
         try:
             self._call(lambda: model.fit(ds.obj, *pargs, **kw))
         except Exception as e:  # noqa: BLE001
@@ -769,6 +775,9 @@ class Worker:
                     out["still_fitted"] = bool(getattr(model, "is_fitted", True))
                 else:
                     self._drop_model(a["m"])
+                    self._limbo(a["m"], model, fam, profile)
+            else:
+                self._limbo(a["m"], model, fam, profile)
             return out
         if keep_old:
             self._drop_model(a["m"])
@@ -801,6 +810,14 @@ class Worker:
         self.models[a["m"]] = slot
         self._enter_service(slot)
         return out
+
+    def _limbo(self, ms, model, fam, profile):
+        """The object of a fit() that was interrupted or failed stays in its slot, good for one thing only: being
+        handed to fit() again (what a batch job that catches the exception and moves on to the next meter does)."""
+        slot = ModelSlot(model, fam, profile)
+        slot.limbo = True
+        self.models[ms] = slot
+        self.probe("object_kept_after_failed_fit")
 
     def _fit_aborted(self, a, ds, model, kw, ab, before, out):
         # dry run on deep copies to learn how many library frames the call enters
@@ -879,7 +896,7 @@ class Worker:
     def op_PREDICT(self, a, store):
         slot = self.models.get(a["m"])
         ds = self.data.get(a["d"])
-        if slot is None or ds is None:
+        if slot is None or ds is None or slot.limbo:
             return {"class": "skipped"}
         ignore = bool(a.get("ignore"))
         agg = a.get("agg")
